@@ -983,6 +983,14 @@ class ServerSSM(SSM):
             self.response(abort)
             return
 
+        # a request starts with its first segment, anything else is a stray
+        # from an exchange that is over
+        if apdu.apduSeq != 0:
+            if _debug: ServerSSM._debug("    - not the first segment")
+            abort = self.abort(AbortReason.invalidApduInThisState)
+            self.response(abort)
+            return
+
         # save the request and set the segmentation context
         self.set_segmentation_context(apdu)
 
